@@ -531,6 +531,38 @@ Proof.
   cbn [apply]. rewrite Hf0, Hf1. eexists. split; [reflexivity|]. cbn [heap pend]. auto.
 Qed.
 
+(* no value out of thin air: a promise is satisfied only by a setDelayedValue for its own key,
+   or by a fulfillAllPromises, and then with the value that call was given *)
+Lemma apply_prov o c c' rv flt q k key v : CInv c -> apply o c = (c', rv, flt) ->
+  nth_error (heap c') q = Some (Cell k key (SetV v)) ->
+  nth_error (heap c) q = Some (Cell k key (SetV v)) \/
+  (nth_error (heap c) q = Some (Cell k key Unset) /\ ((exists mv, o = SetValue mv k key v) \/ o = FulfillAll v)).
+Proof.
+  intros HI Ha Hq. destruct o.
+  - cbn [apply] in Ha. inversion Ha; subst. cbn [heap] in Hq.
+    destruct (get_heap c k0 key0 HI) as [Hinv _].
+    destruct (Hinv _ _ Hq) as [[_ E]|[[_ E]|[_ E]]]; try discriminate. left; exact E.
+  - destruct (afind key0 (pend c k0)) as [q0|] eqn:Hf.
+    + destruct (apply_set_pending c mv k0 key0 v0 q0 HI Hf) as [c'' [Hap [H1 [H2 H3]]]].
+      rewrite Hap in Ha. inversion Ha; subst. destruct (Nat.eq_dec q q0) as [->|Hne].
+      * rewrite H2 in Hq. inversion Hq; subst. right. split; [exact H1|]. left. exists mv. reflexivity.
+      * rewrite H3 in Hq by exact Hne. left; exact Hq.
+    + rewrite (apply_set_noop c mv k0 key0 v0 Hf) in Ha. inversion Ha; subst. left; exact Hq.
+  - destruct (apply_fulfill c v0 HI) as [c'' [Hap [Hlen [_ Hcell]]]].
+    rewrite Hap in Ha. inversion Ha; subst.
+    destruct (nth_error (heap c) q) as [[k1 key1 st1]|] eqn:E.
+    + rewrite (Hcell _ _ _ _ E) in Hq. inversion Hq; subst. destruct st1; cbn [settle] in *; try discriminate.
+      * match goal with H : SetV _ = SetV _ |- _ => inversion H; subst end. right. auto.
+      * match goal with H : SetV _ = SetV _ |- _ => inversion H; subst end. left. reflexivity.
+    + apply nth_error_None in E. assert (q < length (heap c'))%nat by (apply nth_error_Some; congruence). lia.
+  - cbn [apply] in Ha. inversion Ha; subst. left; exact Hq.
+  - cbn [apply] in Ha. inversion Ha; subst. left; exact Hq.
+  - cbn [apply] in Ha. inversion Ha; subst. cbn [heap] in Hq.
+    rewrite (drop_used_id c k0 key0 (heap c) HI (hle_refl _)) in Hq. left; exact Hq.
+  - cbn [apply] in Ha. inversion Ha; subst. left; exact Hq.
+  - cbn [apply] in Ha. inversion Ha; subst. left; exact Hq.
+Qed.
+
 (* ---------- destruction ---------- *)
 Lemma set_all_spec k v : forall es h,
   (forall key q, In (key, q) es -> nth_error h q = Some (Cell k key Unset)) -> NoDup (keys es) ->
@@ -755,7 +787,10 @@ Record Inv (g : glob) (ls : list loc) : Prop := {
   I_slots : forall u l i p, nth_error ls u = Some l -> nth_error (slots l) i = Some (Some p) ->
             (p < length (heap (ct g)))%nat;
   (* the container is the result of the critical sections executed one after the other *)
-  I_hist : replay (hist g) cont0 = Some (ct g)
+  I_hist : replay (hist g) cont0 = Some (ct g);
+  (* every value a promise holds was passed by a caller, for that key or to fulfillAllPromises *)
+  I_prov : forall q k key v, nth_error (heap (ct g)) q = Some (Cell k key (SetV v)) ->
+           exists t rv, (exists mv, In (t, SetValue mv k key v, rv) (hist g)) \/ In (t, FulfillAll v, rv) (hist g)
 }.
 
 Lemma Inv_init ns progs : Inv (gl (init ns progs)) (thr (init ns progs)).
@@ -766,6 +801,7 @@ Proof.
   - apply CInv_init.
   - exfalso. rewrite nth_error_map in H. destruct (nth_error progs u); [|discriminate]. inversion H; subst.
     cbn in H0. apply nth_error_In in H0. apply repeat_spec in H0. discriminate.
+  - destruct q; discriminate.
 Qed.
 
 Lemma drop_length q h : length (drop q h) = length h.
@@ -782,7 +818,7 @@ Lemma Inv_step : forall g ls t c l g' l' es,
 Proof.
   intros g ls t c l g' l' es HI Hl Hs.
   pose proof (pcof_at _ _ _ Hl) as Hp.
-  destruct HI as [HC HNF HO HH HF HSL HR].
+  destruct HI as [HC HNF HO HH HF HSL HR HPV].
   assert (Hslots_same : forall g0, (length (heap (ct g)) <= length (heap (ct g0)))%nat -> slots l' = slots l ->
     forall u l0 i p, nth_error (upd ls t l') u = Some l0 -> nth_error (slots l0) i = Some (Some p) ->
       (p < length (heap (ct g0)))%nat).
@@ -823,6 +859,11 @@ Proof.
         specialize (HSL _ _ _ _ Hl Hi'). lia.
       * specialize (HSL _ _ _ _ Hu' Hi). cbn [ct]. lia.
     + rewrite replay_app, HR. cbn [replay]. rewrite Hap, Z.eqb_refl. reflexivity.
+    + intros q k key v Hq.
+      destruct (apply_prov _ _ _ _ _ _ _ _ _ HC Hap Hq) as [Hold|[_ [[mv ->]| ->]]].
+      * destruct (HPV _ _ _ _ Hold) as [t0 [rv0 [[mv Hin]|Hin]]]; exists t0, rv0; [left; exists mv|right]; apply in_or_app; auto.
+      * exists t, rv. left. exists mv. apply in_or_app. right. left. reflexivity.
+      * exists t, rv. right. apply in_or_app. right. left. reflexivity.
   - (* unlock + return *)
     pose proof (HO t) as HOt. rewrite Hp, Ha in HOt. specialize (HOt eq_refl).
     constructor; cbn [ct mtx faulted hist]; auto.
